@@ -225,3 +225,8 @@ def run(cx, out):
         check_consume_all(out, facts, 'DecodeAll', 'decode_all', 'decode')
         check_consume_all(out, facts, 'DecodeLimit', 'decode_all_with_depth_limit', 'decode_with_depth_limit')
         check_tuples_sequential(out, facts)
+    # premises: "consumes exactly its own encoding" is the mirror property of C02 (decoder shape == encoder shape, kernel,
+    # arrays, in-place entry points, derived decoders), and every Input implementation fails a read it cannot fill
+    # completely without pretending success (C08 R08.4)
+    from . import shared
+    shared.premises(cx, out, {'c02': {'R02.1', 'R02.2', 'R02.5', 'K1-K2', 'K3', 'K4-K5'}, 'c05': {'R05.2', 'R05.5'}, 'c08': {'R08.4'}})
